@@ -83,9 +83,12 @@ var stmtTexts = []string{
 	"set req.http.foo = " + siteExpr + ";",
 	"add req.http.foo = " + siteExpr + ";",
 	"log " + siteExpr + ";",
+	"h2.push(" + siteExpr + ");",
 }
 
 const condText = siteExpr
+
+var elifWords = []string{"else if", "elseif", "elsif"}
 
 // styles: how a directive comment is written
 //
@@ -186,6 +189,11 @@ func render(b *igBeh, style int, seed int64, neutral bool, decorate bool) render
 		case "else":
 			depth--
 			lines = append(lines, ind()+"} else {")
+			depth++
+		case "elif":
+			depth--
+			lines = append(lines, ind()+"} "+elifWords[int((seed+int64(n))%int64(len(elifWords)))]+" ("+condText+") {")
+			siteLine[len(lines)] = n
 			depth++
 		case "if_close", "sub_close":
 			depth--
